@@ -186,6 +186,10 @@ def run(ctx) -> list[Inst]:
             d = diff_tables(table, ref_table)
         except Exception as e:      # rendering only
             d = f'tables differ (rendering failed: {e})'
+        if not extra and _new_atoms(table, ref_table):
+            # tests the specification never makes (an EXISTS over a computed tuple instead of two separate tests ..):
+            # the function was restructured beyond what the canonical form absorbs - not decided
+            extra = ['<tests the reference does not make: restructured>']
         if extra:
             insts.append(Inst(RULE, fname, construct, 'unproven',
                               msg=f'table differs but calls functions / reads globals the reference does not know {extra}: {d[:300]}',
@@ -260,9 +264,8 @@ def _tier_b(ctx) -> list[Inst]:
             newk = sorted(_kinds(table, set()) - _kinds(ref_table, set()))
             if newk:
                 extra = [f'<computed with constructs the reference does not use: {newk[:6]}>']
-        if not extra and sorted(map(repr, map(_skeleton, _all_atoms(table, [])))) != \
-                sorted(map(repr, map(_skeleton, _all_atoms(ref_table, [])))):
-            extra = ['<other tests than the reference: restructured>']
+        if not extra and _new_atoms(table, ref_table):
+            extra = ['<tests the reference does not make: restructured>']
         if extra:
             insts.append(Inst(RULE, fname, construct, 'unproven',
                               msg=f'table differs but uses names / constructs the reference does not know {extra}: {d[:300]}',
@@ -472,3 +475,15 @@ def _kinds(t, acc):
             if isinstance(x, tuple):
                 _kinds(x, acc)
     return acc
+
+
+def _new_atoms(table, ref_table) -> bool:
+    """does `table` test something (up to constants / strictness) that `ref_table` never tests?  Dropping a test of
+    the reference is a changed decision; testing something else is another way of writing the function."""
+    def flat(t):
+        out = set()
+        for group in _all_atoms(t, []):
+            for a in group:
+                out.add(repr(_skeleton(a)))
+        return out
+    return bool(flat(table) - flat(ref_table))
